@@ -17,8 +17,8 @@ Inductive pvalue :=
 | PArr (l : list pvalue)
 | PMap (m : list (bstr * pvalue))
 | PSyncMap (m : list (bstr * pvalue))
-| PErr (name msg : bstr)      (* *Error *)
-| PRtErr (name msg : bstr)    (* *RuntimeError wrapping an *Error *)
+| PErr (id : Z) (name msg : bstr)      (* *Error with pointer identity id *)
+| PRtErr (id eid : Z) (name msg : bstr) (* *RuntimeError id wrapping *Error eid *)
 | PFn (id : bstr)             (* opaque callable with identity id *)
 | POpaque (tag payload : bstr). (* any other Object (time, rawjson, ...) *)
 
@@ -35,8 +35,8 @@ Section Ind.
   Hypothesis HArr : forall l, Forall P l -> P (PArr l).
   Hypothesis HMap : forall m, Forall (fun kv => P (snd kv)) m -> P (PMap m).
   Hypothesis HSyncMap : forall m, Forall (fun kv => P (snd kv)) m -> P (PSyncMap m).
-  Hypothesis HErr : forall n m, P (PErr n m).
-  Hypothesis HRtErr : forall n m, P (PRtErr n m).
+  Hypothesis HErr : forall i n m, P (PErr i n m).
+  Hypothesis HRtErr : forall i e n m, P (PRtErr i e n m).
   Hypothesis HFn : forall i, P (PFn i).
   Hypothesis HOpaque : forall t p, P (POpaque t p).
 
@@ -65,8 +65,8 @@ Section Ind.
                            | [] => Forall_nil _
                            | kv :: xs => Forall_cons _ (pvalue_ind' (snd kv)) (go xs)
                            end) m)
-    | PErr n m => HErr n m
-    | PRtErr n m => HRtErr n m
+    | PErr i n m => HErr i n m
+    | PRtErr i e n m => HRtErr i e n m
     | PFn i => HFn i
     | POpaque t p => HOpaque t p
     end.
